@@ -52,9 +52,30 @@ def canon(x):
     return x
 
 
+def arrow_of(arr):
+    """the Arrow array behind a geometry array, through the public __arrow_array__ protocol"""
+    import pyarrow as pa
+    a = pa.array(arr)
+    if isinstance(a, pa.ChunkedArray):
+        a = pa.concat_arrays(a.chunks)
+    return a
+
+
 def array_pylist(arr):
     """the elements of a geometry array as nested Python lists (None = missing)"""
-    return canon(arr.data.to_pylist())
+    return canon(arrow_of(arr).to_pylist())
+
+
+def kind_of_dtype(dt):
+    """kind name of a geometry dtype, by its public class"""
+    from spatialpandas import geometry as g
+    classes = {'point': g.PointDtype, 'multipoint': g.MultiPointDtype, 'ring': g.RingDtype,
+               'line': g.LineDtype, 'multiline': g.MultiLineDtype, 'polygon': g.PolygonDtype,
+               'multipolygon': g.MultiPolygonDtype}
+    for k in ('ring', 'point', 'multipoint', 'line', 'multiline', 'polygon', 'multipolygon'):
+        if type(dt) is classes[k]:
+            return k
+    return None
 
 
 def make_geo_array(rng, kind, subtype, n, derive_steps=0, nan_p=0.0, all_missing=False):
@@ -78,7 +99,8 @@ def make_geo_array(rng, kind, subtype, n, derive_steps=0, nan_p=0.0, all_missing
         e2 = rand_elements(rng, kind, n - k + 1, subtype, nan_p)
         a1 = G.make_array(kind, e1, subtype)[1:]
         a2 = G.make_array(kind, e2, subtype)[:-1]
-        return type(a1)._concat_same_type([a1, a2]), ('concat', k)
+        import pandas as pd
+        return pd.concat([pd.Series(a1), pd.Series(a2)], ignore_index=True).array, ('concat', k)
     els = rand_elements(rng, kind, n + 2, subtype, nan_p)
     idx = [rng.randrange(n + 2) for _ in range(n)]
     arr = G.make_array(kind, els, subtype).take(np.array(idx, dtype='int64'))
